@@ -66,6 +66,10 @@ pub struct TlsCase {
     /// after this many bytes) - at 0 the very first write or read of the handshake fails
     #[serde(default)]
     pub pipe_fault: Option<(bool, crate::net::FaultKind, u64)>,
+    /// (bare transport only) TLS is configured twice: first with a configuration that trusts
+    /// nobody, then with the real one - the configuration given last is the one in force
+    #[serde(default)]
+    pub reconfigure: bool,
 }
 
 pub struct TlsSim;
@@ -318,6 +322,7 @@ impl Scenario for TlsSim {
             prior_plain: false,
             host_header: if r.chance(1, 4) { Some(r.pick(&["sim.test", "other.example", "a.test:8443", "127.0.0.1"]).to_string()) } else { None },
             concurrent: *Rng::keyed(seed, "tls/concurrent").weighted(&[(3, 0u8), (1, 2), (1, 3)]),
+            reconfigure: Rng::keyed(seed, "tls/reconfigure").chance(1, 4),
             pipe_fault: {
                 let mut f = Rng::keyed(seed, "tls/pipe_fault");
                 if f.chance(1, 4) {
@@ -431,7 +436,11 @@ impl Scenario for TlsSim {
                         }
                     } else {
                         use hyperdriver::client::conn::transport::TransportExt;
-                        let transport = net.transport().with_tls(client_cfg);
+                        let transport = if case.reconfigure {
+                            net.transport().with_tls(tlsfix::client_config_trusting_nobody()).with_tls(client_cfg)
+                        } else {
+                            net.transport().with_tls(client_cfg)
+                        };
                         let mut rb = http::Request::get(uri.as_str());
                         if let Some(h) = &case.host_header {
                             rb = rb.header(http::header::HOST, h.as_str());
@@ -588,7 +597,7 @@ impl Scenario for TlsSim {
         sig.push(case.cert as u64);
         sig.push(case.client_alpn_h2 as u64 * 2 + case.server_alpn_h2 as u64);
         sig.push_str(&match &case.peer { Peer::RawTruncated { at, stall } => format!("trunc{}-{}", at / 64, stall), p => format!("{:?}", p) });
-        sig.push(case.via_client as u64 + 2 * concurrent as u64);
+        sig.push(case.via_client as u64 + 2 * concurrent as u64 + 16 * (case.reconfigure && !case.via_client) as u64);
         sig.push_str(case.host_header.as_deref().unwrap_or("-"));
         if let Some((c2s, kind, at)) = case.pipe_fault {
             sig.push(1 + c2s as u64 + 2 * (kind == crate::net::FaultKind::Reset) as u64 + 4 * at.min(301));
@@ -672,7 +681,18 @@ fn enumerated() -> Vec<TlsCase> {
         host_header: None,
         concurrent: 0,
         pipe_fault: None,
+        reconfigure: false,
     };
+    // TLS configured twice on the transport: the later configuration wins
+    for (peer, cert) in [(Peer::RealTls, CertKind::Good), (Peer::RealTls, CertKind::Untrusted), (Peer::RawClose, CertKind::Good)] {
+        for scheme in ["https", "wss"] {
+            for host in ["sim.test", "127.0.0.1"] {
+                let mut c = base(scheme, host, cert, peer.clone());
+                c.reconfigure = true;
+                v.push(c);
+            }
+        }
+    }
     // the transport fails under the handshake (or later): an error, never a panic, never clear text
     for at in [0u64, 1, 5, 50, 200, 300, 1000, 3000] {
         for kind in [crate::net::FaultKind::Reset, crate::net::FaultKind::Eof] {
